@@ -19,6 +19,6 @@ def run(tier, argv):
     chk.cov["rule"] = ("every (program, argument, outcome of every sample site) behaviour of GFI.tla's DoSimulate for the corpus; "
                        "replayed through seed(gf.simulate) eagerly and under jax.jit; distinct by (program, arg, script)")
     n = gfirecord.run_b(chk, {"simulate"}, ["f2", "fn3", "fv", "fvf", "fs", "fc", "fa", "fd"] if tier == "quick" else THOROUGH,
-                        200 if tier == "quick" else 3000, chi2=True)
+                        200 if tier == "quick" else 500, chi2=True)
     chk.cov["recorded_events"] = n
     return chk.finish()
